@@ -10,9 +10,11 @@ git apply "$SD/patch.diff" || { echo "CONFIRM: patch does not apply"; exit 1; }
 go build ./... || { echo "CONFIRM: does not build"; git checkout -q -- .; exit 1; }
 if ! go test -vet=off -count=1 ./... >/tmp/confirm_base.log 2>&1; then echo "CONFIRM: baseline suite fails with the change"; tail -5 /tmp/confirm_base.log; git checkout -q -- .; exit 1; fi
 DEMO=$(ls "$SD"/*_test.go | head -1)
+RUN=$(grep -o 'func Test[A-Za-z0-9_]*' "$DEMO" | sed 's/func //' | paste -sd'|')
+RACE=""; grep -q '"demo_needs_race_flag": *true' "$SD/meta.json" 2>/dev/null && RACE="-race"
 cp "$DEMO" "$PKG/zz_seed_demo_test.go"
-if go test -vet=off -count=1 -run . "./$PKG" >/tmp/confirm_demo1.log 2>&1; then echo "CONFIRM: demo does NOT fail with the change"; rm -f "$PKG/zz_seed_demo_test.go"; git checkout -q -- .; exit 1; fi
+if go test $RACE -vet=off -count=1 -run "^($RUN)\$" "./$PKG" >/tmp/confirm_demo1.log 2>&1; then echo "CONFIRM: demo does NOT fail with the change"; rm -f "$PKG/zz_seed_demo_test.go"; git checkout -q -- .; exit 1; fi
 git checkout -q -- .
-if ! go test -vet=off -count=1 -run . "./$PKG" >/tmp/confirm_demo2.log 2>&1; then echo "CONFIRM: demo fails on the unchanged tree"; tail -5 /tmp/confirm_demo2.log; rm -f "$PKG/zz_seed_demo_test.go"; exit 1; fi
+if ! go test $RACE -vet=off -count=1 -run "^($RUN)\$" "./$PKG" >/tmp/confirm_demo2.log 2>&1; then echo "CONFIRM: demo fails on the unchanged tree"; tail -5 /tmp/confirm_demo2.log; rm -f "$PKG/zz_seed_demo_test.go"; exit 1; fi
 rm -f "$PKG/zz_seed_demo_test.go"
 echo "CONFIRM: ok"
